@@ -17,9 +17,10 @@ CLAIMED = {
    text="Proof-level kernel: the real functions PaddingLength, NeedleBodyLength, GetActualSize, the flag predicates, ParseNeedleHeader, "
         "readNeedleDataVersion2 (memory safety on well-formed input) and prepareWriteBuffer (versions 2 and 3, all 64 flag combinations symbolic) "
         "are executed symbolically and meet contracts taken from the statement: record size formula, 8-byte alignment, length == GetActualSize, "
-        "header bytes, data bytes copied, flags byte position. Unbounded in every length.",
-   note="Not decided here: the byte layout of name/mime/ttl/pairs/checksum/timestamp inside the record and the full decode(encode(n)) == n "
-        "composition (ReadBytes), CRC strength, ScanVolumeFileFrom. " + TRUST,
+        "header bytes, data bytes copied, flags byte position; ReadBytes (decoding a whole record) succeeds only if the header size is the expected one and the stored "
+        "checksum is the checksum of exactly the decoded data bytes, and yields the stored cookie, checksum and append timestamp. Unbounded in every length.",
+   note="Not decided here: the byte layout of ttl/pairs inside the record and the full decode(encode(n)) == n composition as one lemma, CRC strength "
+        "(crc32 is an uninterpreted function), ScanVolumeFileFrom. " + TRUST,
    design="DESIGN.md §4 C02"),
  "C06": dict(
    text="Proof-level kernel: (1) the real LocateData is verified with an inductive loop invariant (unbounded read size): the cursor always stands at "
@@ -257,7 +258,7 @@ CLAIMED["C22"] = dict(
         "of the sealed-buffer scan are in range; LogBuffer.AddToBuffer serialises an entry that carries a timestamp strictly above the previous event's (guard at "
         "the Marshal call).",
    note="Entry timestamps (protobuf decoding) and MemBuffer.locateByTs are abstract (assumed: the search in a sealed buffer ends inside its valid length); the disk "
-        "fallback (ReadEachLogEntry in filer_notify.go: seeded change C22-m1), flushing, notification and every schedule are not decided here. One defect repaired "
+        "fallback is covered only by the guard that ReadEachLogEntry hands on events strictly newer than the resume time; flushing, notification and every schedule are not decided here. One defect repaired "
         "(the writer was handed a sealed buffer's array). " + TRUST,
    design="DESIGN.md §4 C22")
 
